@@ -47,7 +47,7 @@ def close(a, b, tol):
 class Check(common.Check):
     PROP = 'C12'
     LEAN_TARGETS = ['Sc3Verif.C12.Props']
-    LEAN_DIRS = ['Sc3Verif/C12']
+    LEAN_DIRS = ['Sc3Verif/C12', 'Sc3Verif/C15']
     THEOREMS = ['Sc3Verif.C12.' + t for t in (
         'secs_beats_inverse', 'beats_advance_at_tempo', 'tempo_change_continuous', 'tempo_change_domain',
         'etempo_change_continuous', 'beats_set_continuous', 'ntog_least', 'ntog_total', 'ntog_quant0',
@@ -330,14 +330,10 @@ class Check(common.Check):
                         exp = C['bbb'] + p + math.ceil((ref - C['bbb'] - p) / q) * q
                     else:
                         continue                      # phase outside (-quant, quant): not specified
-                    if kq == 'playat':
-                        if C['tempo'] <= 0:
-                            continue
-                        exp = C['now'] + (exp - C['beats']) / C['tempo']
                     if val is None or not close(val, exp, tol):
                         if approx and q > 0 and near_int((ref - C['bbb'] - p) / q):
                             continue                  # rounding exactly on a grid line
-                        what = 'wake-up second of play(quant)' if kq == 'playat' else 'next_time_on_grid'
+                        what = 'beat at which play(quant) wakes the task' if kq == 'playat' else 'next_time_on_grid'
                         return bad(k, 'grid' if kq == 'ntog' else 'play', f'{what} = {float(val) if val is not None else res}, '
                                    f'the least grid point ≥ reference is {float(exp)}')
                 elif kq == 'nextbar':
